@@ -50,7 +50,9 @@ def build(prog, into=None):
                 e = cls(name=s['name'], id_loc=s.get('loc', 'N'))
             elif s['sym'] == 'Ground':
                 e = cls(name=s['name']) if 'name' in s else cls()
-            elif s['sym'] in ('LabeledLine', 'Switch'):
+            elif s['sym'] == 'LabeledLine':
+                e = cls(name=s['name'], reverse=s.get('reverse', False), **args)
+            elif s['sym'] == 'Switch':
                 e = cls(name=s['name'], **args)
             else:
                 e = cls(name=s['name'], reverse=s.get('reverse', False), **args)
@@ -234,8 +236,10 @@ def default_symbol(rng, c):
         s.update(sym='ComplexVoltageSource' if isv else 'ComplexCurrentSource', args={k: a[k]})
     elif t.startswith('ac'):
         deg = rng.random() < 0.5
-        sin = rng.random() < 0.25
+        sin = rng.random() < 0.3
         phi = a['phi'] + (math.pi / 2 if sin else 0.0)
+        if sin and a['phi'] == 0.0:
+            phi = math.pi / 2                   # V sin(wt + 90 deg): the converted phase is exactly 0
         s.update(sym='ACVoltageSource' if isv else 'ACCurrentSource', args={k: a[k], 'w': a['w'], 'phi': math.degrees(phi) if deg else phi, 'deg': deg, 'sin': sin})
     else:
         deg = rng.random() < 0.5
